@@ -256,7 +256,7 @@ Theorem no_events_no_file : forall p, project_events p = [] ->
 Proof. intros p H. unfold generate. rewrite H. destruct (p_has_command p); split; reflexivity. Qed.
 
 Theorem events_file_written : forall p, project_events p <> [] -> p_has_command p = true ->
-  o_events_ts (generate p) = Some (events_text (project_events p)) /\ o_index_reexports_events (generate p) = true.
+  o_events_ts (generate p) = Some (events_text (map_events (p_mappings p) (project_events p))) /\ o_index_reexports_events (generate p) = true.
 Proof.
   intros p H Hc. unfold generate. rewrite Hc. destruct (project_events p) as [|e r]; [congruence|]. split; reflexivity.
 Qed.
@@ -265,7 +265,7 @@ Qed.
 Theorem no_sites_oracle : forall p ev ix, project_sites p = [] ->
   oracle (project_sites p) ev ix = [] <-> (ev = None /\ reexports_events ix = Some false).
 Proof.
-  intros p ev ix H. rewrite H. unfold oracle. cbn [site_names map dedup].
+  intros p ev ix H. rewrite H. unfold oracle, oracle_m. cbn [site_names map dedup].
   destruct ev as [e|]; destruct (reexports_events ix) as [[|]|]; cbn; split; intros; try discriminate; auto;
     try (destruct H0; discriminate); try (destruct H0 as [_ H0]; discriminate).
 Qed.
@@ -274,13 +274,13 @@ Qed.
 Definition model_index (o : output) : option str :=
   if o_generated o then Some (if o_index_reexports_events o then L "export * from './events';" else []) else None.
 Definition model_complaints (p : project) : list complaint :=
-  oracle (project_sites p) (o_events_ts (generate p)) (model_index (generate p)).
+  oracle_m (p_mappings p) (project_sites p) (o_events_ts (generate p)) (model_index (generate p)).
 (* the full statement: NOT asserted (see level_note); kept visible *)
 Definition C12_full_statement : Prop :=
   forall p, in_domain p = true -> kf_project p = false -> model_complaints p = [].
 
 Definition mk1 (body : list stmt) (cmd : bool) : project :=
-  {| p_files := [[{| fd_params := map (fun q => (Some (fst q), snd q)) worker_params; fd_body := body |}]]; p_has_command := cmd |}.
+  {| p_files := [[{| fd_params := map (fun q => (Some (fst q), snd q)) worker_params; fd_body := body |}]]; p_has_command := cmd; p_mappings := [] |}.
 Definition ok_ (e : expr) : stmt := SExpr (M0 e "ok").
 Definition worker_project : project := mk1 worker_body true.
 
